@@ -15,7 +15,7 @@ CHECKS = {
              "(TraceStftDef) / the implementation-level one (TraceSi), with feature values compared to compute_full and to the "
              "definition evaluated independently.  Bounded, not a proof: L<=5 (quick) / 8 (thorough), N<=2L+S+4.",
         note="Trusted: TLC, numpy.pad symmetric semantics, the token-capturing wrapper around _compute_frame (original still "
-             "called), the NumPy valuation of the SI definition.  Real-size configurations are sampled, not exhausted.",
+             "called), the NumPy valuation of the SI definition.  Real-size configurations are sampled, not exhausted. The private fill counters feed only the informational implementation-shaped layer; a tree without them is checked at the definition level alone (NOTE + evidence field private_state_not_found).",
         technique="TLA+ model checking (TLC) of StftStream/SiStream + batched trace validation of recorded real executions",
         design="6 C01"),
     "C02": dict(
@@ -92,7 +92,7 @@ CHECKS = {
              "validated event by event by TLC (TraceStandardize, with the model invariants evaluated on the observed executions); "
              "apply() compared with (x-mean)/std from the exact integer statistics; permutations / splits of one bag must apply "
              "bit-identically; the no-statistics rule over shapes with singleton axes.",
-        note="Instance statistics are observed through the private _stats array (exact integers); apply() is compared independently.",
+        note="Instance statistics are observed through the private _stats array (exact integers); apply() is compared independently. The instance state validated by TraceStandardize is observed through the public interface (have_stats, what save writes to a scratch .npy), not through private attributes.",
         technique="TLA+ model checking (TLC) + batched trace validation of recorded call sequences",
         design="6 C16"),
     "C17": dict(
@@ -101,7 +101,7 @@ CHECKS = {
              "refuted by TLC (canary).  Binding: random save / load / accumulate sequences on real files in a scratch directory, file "
              "inspected with numpy after every save, validated by TLC; every sign pattern x scale x target kind reloaded and compared "
              "bitwise through apply().",
-        note="Loads of a missing npz key are not generated (unspecified).  Raw files are reloaded with force_as='file' as the repository's own test does.",
+        note="Loads of a missing npz key are not generated (unspecified).  Raw files are reloaded with force_as='file' as the repository's own test does. Instance state is observed through have_stats / save (public), files by reading them back with numpy.",
         technique="TLA+ model checking (TLC) + batched trace validation against real files",
         design="6 C17"),
     "C18": dict(
@@ -167,7 +167,7 @@ CHECKS = {
              "computers (fbank, complex wrapping banks with odd frame length and padded DFT, kaldi shift, short integration), "
              "channels, workers, raw column, wav / npy / pt / sph containers, too-short / stereo / wrong-rate utterances.",
         note="For dither the expected noise is drawn the way the tool is specified to seed it (numpy global seed for the kaldi tool, "
-             "torch.manual_seed(seed + map position) for the torch tool).  A kaldi archive does not keep the column count of an empty matrix.",
+             "torch.manual_seed(seed + map position) for the torch tool).  A kaldi archive does not keep the column count of an empty matrix. With dither the Kaldi tool is first compared with a replay of numpy seeded once with --seed (exact for the pinned tree); a tree whose noise differs is held to the statement: identical output of two runs with one seed, and the dither-free pipeline up to one unit of noise.",
         technique="TLA+ model checking (TLC) of the per-utterance pipeline + trace validation of hook events + output comparison",
         design="6 C09"),
     "C10": dict(
